@@ -21,6 +21,9 @@ which the check ties to the real compiler line by line on every run):
   * `C12_fold_eq_circuit_partial`: the same, packaged over the decidable
     predicate `hyps` that the check evaluates for every generated case — an
     oracle failure inside the region `hyps = []` cannot be a known finding;
+  * `C12_text_wrap_nonneg`, `C12_text_div_mod_nonneg`: end to end on the
+    program text `T(a) op T(b)` for ALL non-negative representable a, b
+    (the operands as the lexer / Generator.Constant / Call.Eval build them);
   * for every hypothesis a concrete witness (closed computation on the model,
     replayed on the Go code by `c12 one -extra "<op> <s|u> <n> <a> <b> <aform> <bform>"`)
     showing that the full statement fails without it;
@@ -413,6 +416,77 @@ theorem C12_fold_eq_circuit_partial (op : Op) (signed : Bool) (n : Nat) (l r : C
 -- non-vacuity: the region is inhabited for every operator (cases the generator produces)
 example : caseHyps .bxor .int 64 (-9223372036854775808) 9223372036854775807 .neg .pos = [] := by decide +kernel
 example : caseHyps .ge .int 16 (-32768) 32767 .cast .pos = [] := by decide +kernel
+
+/-! ## End to end on the program text (operands written `T(v)`, v ≥ 0) -/
+
+theorem bind_ok' {α β : Type} (a : α) (f : α → Res β) : ((Except.ok a : Res α) >>= f) = f a := rfl
+
+/-- End to end on the program text: `T(a) op T(b)` for op in `- * & | ^ &^`, every `intN/uintN`, `N ≤ 64`, and ALL
+non-negative representable `a`, `b`: the expression folds, the constant is assignable to `T`, and its low `N`
+wires are the run-time instruction on the encodings of `a` and `b`. -/
+theorem C12_text_wrap_nonneg (op : Op) (hop : op.isWrap = true) (k : Kind) (hk : k ≠ .bool) (n a b : Nat)
+    (hn0 : 0 < n) (hn : n ≤ 64) (ha : a < 2 ^ n) (hb : b < 2 ^ n) :
+    ∃ t v, foldExpr op k n a b .pos .pos = .ok (.int t v) ∧ t.minBits ≤ n ∧
+      seenBV n (.int t v) = circuitOp op (k == .int) (BitVec.ofNat n a) (BitVec.ofNat n b) 0 := by
+  obtain ⟨lt, lv, el, hlk, hlb, _, hlv, _, hls⟩ := typedConst_pos k n a hn ha
+  obtain ⟨rt, rv, er, hrk, hrb, _, hrv, _, hrs⟩ := typedConst_pos k n b hn hb
+  obtain ⟨t, v, h1, _, _, h4, _, h6⟩ :=
+    fold_wrap op hop (k == .int) n 0 lt rt lv rv (by rw [hlk, hrk]) (by omega) (by omega) (by omega) (by omega) hlv hrv
+  refine ⟨t, v, ?_, by omega, by rw [h6, hls, hrs]⟩
+  have hkb : (k == Kind.bool) = false := by cases k <;> simp_all
+  have hneg : (op == Op.neg) = false := by cases op <;> simp_all [Op.isWrap]
+  have hsh : op.isShift = false := by cases op <;> simp_all [Op.isWrap, Op.isShift]
+  unfold foldExpr
+  rw [hkb, hneg, hsh]
+  simp only [Bool.false_eq_true, if_false]
+  rw [el, bind_ok', er, bind_ok']
+  exact h1
+
+example : (2 : Nat) < 2 ^ 8 ∧ (0 : Nat) < 8 ∧ 8 ≤ 64 := by decide
+
+theorem msb_ofNat_false (n a : Nat) (_hn0 : 0 < n) (ha : a < 2 ^ (n - 1)) : (BitVec.ofNat n a).msb = false := by
+  rw [BitVec.msb_eq_decide]
+  simp only [BitVec.toNat_ofNat, decide_eq_false_iff_not, Nat.not_le]
+  exact Nat.lt_of_le_of_lt (Nat.mod_le _ _) ha
+
+/-- End to end on the program text: `T(a) / T(b)`, `T(a) % T(b)` for non-negative representable operands below
+2^63 (for `intN`: below 2^(N-1), i.e. representable), zero divisor included. -/
+theorem C12_text_div_mod_nonneg (op : Op) (hop : op = .div ∨ op = .mod) (k : Kind) (hk : k ≠ .bool) (n a b : Nat)
+    (hn0 : 0 < n) (hn : n ≤ 64) (ha : a < 2 ^ n) (hb : b < 2 ^ n) (ha63 : a < 2 ^ 63) (hb63 : b < 2 ^ 63)
+    (hsa : k = .int → a < 2 ^ (n - 1)) (hsb : k = .int → b < 2 ^ (n - 1)) :
+    ∃ t v, foldExpr op k n a b .pos .pos = .ok (.int t v) ∧
+      seenBV n (.int t v) = circuitOp op (k == .int) (BitVec.ofNat n a) (BitVec.ofNat n b) 0 := by
+  obtain ⟨lt, lv, el, hlk, hlb, hlv0, hlv, hlsm, hls⟩ := typedConst_pos k n a hn ha
+  obtain ⟨rt, rv, er, hrk, hrb, hrv0, hrv, hrsm, hrs⟩ := typedConst_pos k n b hn hb
+  have hl : smallOperand n (.int lt lv) = true := by simp [smallOperand]; omega
+  have hr : smallOperand n (.int rt rv) = true := by simp [smallOperand]; omega
+  have hkk : sameKind (.int lt lv) (.int rt rv) = true := by simp [sameKind, hlk, hrk]
+  have clean : ∀ (t : TInfo) (v : MInt) (c : Nat), c < 2 ^ n → c < 2 ^ 63 → (k = .int → c < 2 ^ (n - 1)) →
+      v.small.toNat = c → seenBV n (.int t v) = BitVec.ofNat n c → cleanNonneg (k == .int) n (.int t v) = true := by
+    intro t v c hc hc63 hcs hsm hseen
+    simp only [cleanNonneg, Bool.and_eq_true, beq_iff_eq, Bool.not_eq_true', Bool.or_eq_true]
+    refine ⟨⟨?_, ?_⟩, ?_⟩
+    · rw [hseen]
+      apply BitVec.eq_of_toNat_eq
+      rw [hsm, BitVec.toNat_setWidth, BitVec.toNat_ofNat, Nat.mod_eq_of_lt hc]
+      exact (Nat.mod_eq_of_lt (Nat.lt_of_lt_of_le hc (Nat.pow_le_pow_right (by omega) hn))).symm
+    · rw [BitVec.msb_eq_decide]
+      simp only [decide_eq_false_iff_not, Nat.not_le]
+      rw [hsm]; exact hc63
+    · by_cases hki : k = .int
+      · right; rw [hseen]; exact msb_ofNat_false n c hn0 (hcs hki)
+      · left; cases k <;> simp_all
+  obtain ⟨t, v, h1, _, h3⟩ := C12_fold_div_mod_partial op hop (k == .int) n 0 _ _ hn0 hn hl hr hkk
+    (clean lt lv a ha ha63 hsa hlsm hls) (clean rt rv b hb hb63 hsb hrsm hrs)
+  refine ⟨t, v, ?_, by rw [h3, hls, hrs]⟩
+  have hkb : (k == Kind.bool) = false := by cases k <;> simp_all
+  have hneg : (op == Op.neg) = false := by cases hop <;> subst op <;> rfl
+  have hsh : op.isShift = false := by cases hop <;> subst op <;> rfl
+  unfold foldExpr
+  rw [hkb, hneg, hsh]
+  simp only [Bool.false_eq_true, if_false]
+  rw [el, bind_ok', er, bind_ok']
+  exact h1
 
 /-! ## Operands, result type, crashes: witnesses outside the operator theorems -/
 
